@@ -31,7 +31,12 @@ def texts(maxlen):
     for n in range(1, maxlen + 1):
         for t in itertools.product(TCHARS, repeat=n):
             out.append(''.join(t))
-    return out + ['hello world', 'a{b}:c', 'wide日本語text', 'x' * 12]
+    # line boundaries of every kind, in every position of a short text (styled output wraps the whole text once)
+    for n in range(1, 4):
+        for t in itertools.product(['a', '\n', '\r', '\r\n', '\u2028', '\x0b', '\x85'], repeat=n):
+            if any(c != 'a' for c in t):
+                out.append(''.join(t))
+    return out + ['hello world', 'a{b}:c', 'wide日本語text', 'x' * 12, 'one\ntwo', 'one\ntwo\n']
 
 
 def colours():
@@ -112,7 +117,7 @@ def check_one(m, text, fg, bg, mods, spec, tag):
         m.violation(f'repr-roundtrip-raises/{type(e).__name__}/{tag}', **desc)
         return
     m.add('evaluations')
-    clean = bool(CLEAN.match(text))
+    clean = bool(CLEAN.match(text)) and text.isprintable()   # C1 controls and line/paragraph separators count as control characters
     if clean or not spec:
         # the attributes must survive; for unclean text with a format the f{..:..} wrapper is ambiguous
         a, b = attrs(s), attrs(back)
